@@ -443,10 +443,22 @@ fn busy_then_reopen(r: &mut Rng, res: &mut CaseResult) {
     };
     let rounds = r.usize(2, 5);
     for round in 0..rounds {
-        let ch = match conn.open_channel(Some(7)) {
-            Ok(c) => c,
-            Err(e) => {
+        // (on a thread of its own: an open that never returns is a finding, not a stuck case)
+        let t = run::spawn("open-7", move || {
+            let r = conn.open_channel(Some(7));
+            (conn, r)
+        });
+        let ch = match t.join(W) {
+            J::Done((c, Ok(ch))) => {
+                conn = c;
+                ch
+            }
+            J::Done((_, Err(e))) => {
                 res.violate("id_not_reusable", format!("round {}: open_channel(Some(7)) after the server had closed 7: {}", round, ek(&e)));
+                return;
+            }
+            _ => {
+                res.violate("id_not_reusable", format!("round {}: open_channel(Some(7)) after the server had closed a busy channel 7 did not return within 20 s", round));
                 return;
             }
         };
